@@ -11,6 +11,7 @@ import BV.Drv.C11
 import BV.Drv.C09
 import BV.Drv.C10
 import BV.Drv.C12
+import BV.Drv.C13
 
 def dispatch (line : String) : String :=
   match (line.trimAscii.toString.splitOn " ").filter (· ≠ "") with
@@ -29,6 +30,7 @@ def dispatch (line : String) : String :=
   | "c09" :: rest => BV.Drv.C09.handle rest
   | "c10" :: rest => BV.Drv.C10.handle rest
   | "c12" :: rest => BV.Drv.C12.handle rest
+  | "c13" :: rest => BV.Drv.C13.handle rest
   | _ => "bad-op"
 
 partial def loop (h : IO.FS.Stream) (out : IO.FS.Stream) : IO Unit := do
